@@ -334,7 +334,27 @@ def run(p: Program, rep: Report, tier: str) -> None:
                               "(e.g. a Set-Cookie with an Expires date, which contains ', ') is re-serialised differently from the bare application's")
             else:
                 rep.ok("R20.7", f"{side}: NextResponse has its own list_headers that does not rewrite header text")
-    rep.require_instances("R20.7", 2)
+    # ... and the shared emitter itself hands out every stored header value whole (it may encode it, nothing else)
+    surgery = [c for c in calls_in(base_lh, deep=True) if isinstance(c.func, ast.Attribute) and c.func.attr in ("split", "rsplit", "splitlines", "join", "replace", "partition", "rpartition", "strip", "lstrip", "rstrip", "lower", "upper", "title")]
+    if surgery:
+        rep.violation("R20.7", construct(base_lh, text=f"list_headers rewrites values with .{surgery[0].func.attr}()"), where(base_lh, surgery[0]),
+                      f"BaseResponse.list_headers rewrites header text (.{surgery[0].func.attr}(...)) while emitting: a header the handler returned unchanged - e.g. a relayed Set-Cookie whose Expires date "
+                      "contains ', ' - leaves the middleware different from what the bare application sent")
+    else:
+        rep.ok("R20.7", "BaseResponse.list_headers emits every stored header value whole (encode only)")
+    rep.require_instances("R20.7", 3)
+    # ---------------------------------------------------------------- R20.8 the header mapping's constructor (shared rule, sa/props/hdr_common.py)
+    from .hdr_common import headers_ctor_passthrough, headers_ctor_own_store
+    for _f in (headers_ctor_passthrough, headers_ctor_own_store,):
+        for kind, fn_, node, cons, msg in _f(p):
+            if kind == "ok":
+                rep.analysed(fn_.fq)
+                rep.ok("R20.8", msg)
+            elif kind == "undecided":
+                rep.undecide("R20.8", msg)
+            else:
+                rep.violation("R20.8", construct(fn_, text=cons), where(fn_, node), msg)
+    rep.require_instances("R20.8", 2)
     rep.require_instances("R20.1", 1)
     rep.require_instances("R20.2", 8)
     rep.require_instances("R20.3", 2)
